@@ -35,6 +35,7 @@ def classes():
 
 
 map_size = z3.Function("map_size", z3.IntSort(), z3.IntSort())
+deque_maxlen = z3.Function("deque_maxlen", z3.IntSort(), z3.IntSort())  # -1: unbounded
 # the set of elements of a sequence (spec function; uninterpreted: only "the same sequence has the same members" is used)
 seq_members = z3.Function("seq_members", V.ValSeq, z3.ArraySort(V.Val, z3.BoolSort()))
 
@@ -903,6 +904,69 @@ def install(eng):
         st.sets = z3.Store(st.sets, V.Val.a(self.t), z3.SetUnion(a, b))
         yield st, None
 
+    # ------------------------------------------------------------------ collections.deque (append / index / len only)
+    # The *history* of everything appended is kept in st.lists; a bounded deque shows its last `maxlen` items.
+    # pop / popleft / appendleft are not modelled for bounded deques (they would need the dropped items back).
+    import collections as _coll
+
+    def dq_parts(st, self):
+        a = V.Val.a(self.t)
+        hist = z3.Select(st.lists, a)
+        mx = deque_maxlen(a)
+        n = z3.Length(hist)
+        return a, hist, mx, z3.If(z3.And(mx >= 0, mx < n), mx, n)
+
+    @reg(_coll.deque, "collections.deque")
+    def m_deque(eng, st, args, kw):
+        sv = eng.alloc(st, _coll.deque)
+        src = args[0] if args else kw.get("iterable", ())
+        mx = args[1] if len(args) > 1 else kw.get("maxlen")
+        sq = seq_content(eng, src, st)
+        mt = z3.IntVal(-1) if mx is None else V.int_of(eng.lift(mx, st))
+        st.assume(deque_maxlen(V.Val.a(sv.t)) == mt)
+        st.lists = z3.Store(st.lists, V.Val.a(sv.t), sq)
+        # (an initial iterable longer than maxlen would be truncated: not needed, so it is an obligation)
+        eng.oblige(st, "deque(iterable, maxlen): the initial items fit", z3.Or(mt < 0, z3.Length(sq) <= mt), "model-pre")
+        yield st, sv
+
+    @mm(_coll.deque, "append")
+    def dq_append(eng, st, args, kw):
+        self, x = args
+        a, hist, mx, n = dq_parts(st, self)
+        xt = eng.lift(x, st)
+        eng.escape(st, xt)
+        st.lists = z3.Store(st.lists, a, z3.Concat(hist, z3.Unit(xt)))
+        yield st, None
+
+    @mm(_coll.deque, "__len__")
+    def dq_len(eng, st, args, kw):
+        a, hist, mx, n = dq_parts(st, args[0])
+        yield st, SV(V.mk_int(n))
+
+    @mm(_coll.deque, "__getitem__")
+    def dq_getitem(eng, st, args, kw):
+        self, idx = args
+        a, hist, mx, n = dq_parts(st, self)
+        isint, i = _int_index(eng, st, idx)
+        for st1, ok in eng.branch(isint, st):
+            if not ok:
+                yield st1, Raise(Exc(TypeError, ("sequence index must be integer",)))
+                continue
+            j = z3.If(i < 0, i + n, i)
+            for st2, inb in eng.branch(z3.And(j >= 0, j < n), st1):
+                if inb:
+                    r = z3.simplify(hist[z3.Length(hist) - n + j])
+                    st2.assume(eng.external_ref_fact(st2, r))
+                    et = getattr(eng, "elem_type", None)
+                    et = et(eng, st2, self) if et is not None else None
+                    if et is not None:
+                        # declared element type of this deque (pack option): an obligation first, then a fact
+                        eng.oblige(st2, f"declared element type {et.name} of the indexed deque follows from the preconditions", et.pred(r), "elem-type")
+                        st2.assume(et.pred(r))
+                    yield st2, SV(r)
+                else:
+                    yield st2, Raise(Exc(IndexError, ("deque index out of range",)))
+
     @reg(builtins.list, "list")
     def m_list(eng, st, args, kw):
         if eng.all_concrete(args, kw):
@@ -1142,7 +1206,7 @@ def install_wrappers(eng):
 
     # collections.abc.Mapping.items/keys/values iterate __iter__ and look each key up with __getitem__,
     # both of which PersistentMap delegates to the wrapped immutables.Map (trusted: stdlib mixins)
-    for nm in ("items", "keys", "values"):
+    for nm in ("items", "keys", "values", "get"):
         eng.method_models[(PersistentMap, nm)] = Model(f"PersistentMap.{nm}", via_inner(nm))
 
 
